@@ -1268,9 +1268,7 @@ class tensor:
 
         # Np transpose does error checking on order, acts as permutation
 
-        return ttb.tensor(
-            to_memory_order(np.transpose(self.data, order), self.order), copy=False
-        )
+        return ttb.tensor(np.transpose(self.data, order), copy=True)
 
     def reshape(self, shape: Shape) -> tensor:
         """
@@ -1294,7 +1292,7 @@ class tensor:
         if prod(self.shape) != prod(shape):
             assert False, "Reshaping a tensor cannot change number of elements"
 
-        return ttb.tensor(self.data.reshape(shape, order=self.order), shape, copy=False)
+        return ttb.tensor(self.data.reshape(shape, order=self.order), shape, copy=True)
 
     def scale(
         self,
